@@ -96,6 +96,12 @@ def build_data(seed):
     add("Hourly", "rep_ghi", F.hourly_reporting(hrg), ("Reporting", "Hourly"), "US/Pacific", ghi=True)
     hrb = F.hourly_frame(rng, tz="US/Eastern", start="2023-02-01", ndays=21)
     add("Hourly", "rep_tzB", F.hourly_reporting(hrb), ("Reporting", "Hourly"), "US/Eastern")
+    # net-exporting meter (mean usage <= 0: CVRMSE undefined) whose usage is unrelated to the weather
+    # (PNRMSE far above its threshold): must end in the poor-fit disqualification under DEFAULT thresholds
+    hx = h.copy()
+    nrng = np.random.default_rng(rng.randrange(2**32))
+    hx["observed"] = nrng.normal(-1, 10, len(hx)) ** 3
+    add("Hourly", "exporter_poor", F.hourly_baseline(hx), ("Baseline", "Hourly"), "US/Pacific")
     for zn, nm in (("America/Vancouver", "rep_tzC"), ("Pacific/Pitcairn", "rep_tzD")):
         hz = F.hourly_frame(rng, tz=zn, start="2023-02-01", ndays=21)
         add("Hourly", nm, F.hourly_reporting(hz), ("Reporting", "Hourly"), zn)
@@ -155,9 +161,14 @@ def run_history(args):
             try:
                 obj.fit(d["obj"], ignore_disqualification=op[2])
                 out = "Fitted"
-                # poor-fit oracle: read the fitted object's metric verdict
+                # poor-fit oracle, INDEPENDENT of the gate function itself: recomputed from the reported metrics and
+                # thresholds (statement C16: disqualified iff both criteria are missed; an undefined ratio is a miss)
                 if fam == "Hourly":
-                    poor = not bool(obj._model_fit_is_acceptable())
+                    bm = obj.baseline_metrics
+                    cv, pn = bm.cvrmse_adj, bm.pnrmse_adj
+                    ok_cv = cv is not None and np.isfinite(cv) and cv < obj.settings.cvrmse_threshold
+                    ok_pn = pn is not None and np.isfinite(pn) and pn < obj.settings.pnrmse_threshold
+                    poor = not (ok_cv or ok_pn)
                 else:
                     poor = bool(obj.error["CVRMSE"] > obj.settings.cvrmse_threshold)
             except Exception as e:  # noqa
@@ -212,6 +223,10 @@ def gen_history(rng, fam, k):
                ("predict", "rep", False), ("predict", "clean", True), ("fit", "neggas" if fam != "Hourly" else "short", True),
                ("predict", "rep", False)]
         return "lowthr", ops
+    if k == 3 and fam == "Hourly":
+        ops = [("fit", "exporter_poor", False), ("predict", "rep", False), ("reload",), ("predict", "rep", False),
+               ("predict", "rep", True)]
+        return "default", ops
     while len(ops) < length:
         x = rng.random()
         if x < 0.3 and nfit < 2:
